@@ -286,7 +286,14 @@ impl<'tcx> Cx<'tcx> {
                                         let mut ops: Vec<&Operand<'tcx>> = Vec::new();
                                         match &b.1 {
                                             Rvalue::Use(o, ..) | Rvalue::Cast(_, o, _) | Rvalue::UnaryOp(_, o) => ops.push(o),
-                                            Rvalue::Aggregate(_, os) => { for o in os.iter() { ops.push(o); } }
+                                            Rvalue::Aggregate(k, os) => {
+                                                // name the enum variant / struct that the promoted value is built from (`&Err(ParkError::Canceled)`)
+                                                if let AggregateKind::Adt(adid, vidx, _, _, _) = &**k {
+                                                    let adt = self.tcx.adt_def(*adid);
+                                                    names.push(esc(&format!("{}::{}", self.path(*adid), adt.variant(*vidx).name)));
+                                                }
+                                                for o in os.iter() { ops.push(o); }
+                                            }
                                             _ => {}
                                         }
                                         for o in ops {
